@@ -44,6 +44,8 @@ PROFILES = {
     "C14": dict(gen=dict(docs=1.0, doc_types="mixed", infer_returns=0.1), styles=["numpydoc", "google", "rest"],
                 options=[dict(tsp=p, tsw=w) for p in ("CODE", "DOCSTRING") for w in ("WARN", "IGNORE")]),
     "C17": dict(gen=dict(private_rate=0.45, docs=0.0), options=[dict()]),
+    "C09": dict(gen=dict(kw_rate=0.1, docs=0.3), options=[dict(convert=False), dict(convert=True)]),
+    "C16": dict(gen=dict(docs=0.3), options=[dict(), dict(convert=True)], twice=True),
 }
 
 
@@ -64,6 +66,9 @@ def one_case(task):
         for k, o in enumerate(prof["options"]):
             opts = {"style": style, **o}
             res = e2e.run_tool(_impl(), top / "src" / pkg["root"], top / f"out{k}", **opts)
+            if prof.get("twice"):
+                # C16: the CLI run a second time into the same, now populated, output directory
+                res["second_run"] = e2e.run_tool(_impl(), top / "src" / pkg["root"], top / f"out{k}", **opts)
             out["outcomes"].append(res["outcome"] if res["outcome"] != "exc" else f"{res['exc']}@{res['site']}")
             out["n_files"] += len(res["files"])
             runs.append((opts, res))
